@@ -9,8 +9,11 @@
   Python, statement by statement:
     1. every head's `matching_scores.clear()`
     2. `states_to_be_removed` = uids of flows with `_is_done_flow ∧ now - status_updated > age ∧ activated == 0`
-    3. for each such uid, in order: drop it from its parent's `child_flow_uids` (only if the parent is
-       still present and lists it), `flow_id_states[flow_id].remove(flow_state)`, `del flow_states[uid]`
+       ∧ not the `parent_uid` of a flow with `activated > 0` (repair fixes/C11-cleanup-dangling-parent.diff: an
+       activated flow looks its parent up when it is deactivated, `_is_reference_activated_flow`)
+    3. for each such uid, in order: drop EVERY occurrence of it from its parent's `child_flow_uids` (only if the
+       parent is still present) and from the flow lists of all open scopes (repair b724762),
+       `flow_id_states[flow_id].remove(flow_state)`, `del flow_states[uid]`
     4. `actions` := the actions referenced by `action_uids` of the remaining flows, in first-reference order
        (`state.actions[uid]` raises `KeyError` when the action is missing — `Except` in the model).
 -/
@@ -38,6 +41,7 @@ structure Flow where
   activated : Int
   actionUids : List String
   heads : List Head
+  scopeFlows : List (List String)      -- per open scope: the uids of the flows started in it
   deriving DecidableEq, Repr, Inhabited
 
 structure St (α : Type) where
@@ -48,25 +52,35 @@ structure St (α : Type) where
 
 def isDone (f : Flow) : Bool := f.status == .stopped || f.status == .finished
 
+/-- `{fs.parent_uid for fs in flow_states.values() if fs.activated > 0}` -/
+def neededParents (flows : List Flow) : List String :=
+  (flows.filter (fun f => decide (f.activated > 0))).filterMap (·.parent)
+
 /-- the removal predicate of step 2 -/
-def removable (now age : Int) (f : Flow) : Bool :=
-  isDone f && decide (now - f.updated > age) && f.activated == 0
+def removable (now age : Int) (needed : List String) (f : Flow) : Bool :=
+  isDone f && decide (now - f.updated > age) && f.activated == 0 && !needed.contains f.uid
 
 def clearScores (f : Flow) : Flow := { f with heads := f.heads.map fun h => { h with scores := [] } }
 
-def dropChild (p u : String) (g : Flow) : Flow :=
-  if g.uid == p then { g with children := g.children.erase u } else g
+/-- what the removal of `u` (whose truthy `parent_uid` is `pOpt`) does to another record -/
+def adjust (pOpt : Option String) (u : String) (g : Flow) : Flow :=
+  { g with
+    children := if pOpt = some g.uid then g.children.filter (· != u) else g.children
+    scopeFlows := g.scopeFlows.map fun l => l.filter (· != u) }
+
+def truthyParent (f : Flow) : Option String :=
+  match f.parent with
+  | some p => if p ≠ "" then some p else none
+  | none => none
 
 /-- one iteration of the loop of step 3 -/
 def removeOne {α : Type} (s : St α) (u : String) : St α :=
   match s.flows.find? (·.uid == u) with
   | none => s
   | some f =>
-    let flows1 := match f.parent with
-      | some p => if p ≠ "" then s.flows.map (dropChild p u) else s.flows
-      | none => s.flows
-    let idx1 := s.idx.map fun e => if e.1 == f.flowId then (e.1, e.2.erase u) else e
-    { flows := flows1.filter (·.uid != u), idx := idx1, actions := s.actions }
+    { flows := (s.flows.map (adjust (truthyParent f) u)).filter (·.uid != u),
+      idx := s.idx.map fun e => if e.1 == f.flowId then (e.1, e.2.erase u) else e,
+      actions := s.actions }
 
 def referenced (flows : List Flow) : List String := (flows.flatMap (·.actionUids)).eraseDups
 
@@ -83,7 +97,7 @@ def lookupAll {α : Type} (actions : List (String × α)) : List String → Exce
     pure (a :: r)
 
 def toRemove (now age : Int) (flows : List Flow) : List String :=
-  (flows.filter (removable now age)).map (·.uid)
+  (flows.filter (removable now age (neededParents flows))).map (·.uid)
 
 /-- steps 1–3 -/
 def sweep {α : Type} (now age : Int) (s : St α) : St α :=
@@ -99,13 +113,19 @@ def cleanUp {α : Type} (now age : Int) (s : St α) : Except String (St α) := d
 def IdxOk {α : Type} (s : St α) : Prop :=
   ∀ e ∈ s.idx, e.2 = (s.flows.filter (fun f => f.flowId == e.1)).map (·.uid)
 
-
-/-- every entry of a `child_flow_uids` list names an existing instance whose `parent_uid` points back, no uid is
-    listed twice, and no instance has the empty uid (Python: `if flow_state.parent_uid and …`) -/
+/-- every entry of a `child_flow_uids` list names an existing instance whose `parent_uid` points back, and no instance
+    has the empty uid (Python: `if flow_state.parent_uid and …`) -/
 def LinksOk {α : Type} (s : St α) : Prop :=
   (∀ f ∈ s.flows, f.uid ≠ "") ∧
-  ∀ p ∈ s.flows, p.children.Nodup ∧ ∀ c ∈ p.children, ∃ k ∈ s.flows, k.uid = c ∧ k.parent = some p.uid
+  ∀ p ∈ s.flows, ∀ c ∈ p.children, ∃ k ∈ s.flows, k.uid = c ∧ k.parent = some p.uid
 
+/-- every uid listed in an open scope names an existing instance -/
+def ScopesOk {α : Type} (s : St α) : Prop :=
+  ∀ g ∈ s.flows, ∀ l ∈ g.scopeFlows, ∀ c ∈ l, ∃ k ∈ s.flows, k.uid = c
+
+/-- the parent of every ACTIVATED instance exists (the look-up of `_is_reference_activated_flow`) -/
+def ActivatedParentsOk {α : Type} (s : St α) : Prop :=
+  ∀ g ∈ s.flows, g.activated > 0 → ∀ p, g.parent = some p → ∃ k ∈ s.flows, k.uid = p
 
 def ageMicros : Int := (NemoVerif.Generated.C11.cleanUpAgeSeconds : Int) * 1000000
 
